@@ -1,14 +1,142 @@
+//! C17 — results do not depend on the component representation (see DESIGN.md §4 C17).
+mod conv;
 mod graphs;
+mod lat;
 mod vect;
+
+use pg::Graph;
+use pv::{json, Collector, Ctx, Mode, Value};
+use vect::Vect;
+use wide::{f32x4, f32x8, f64x2, f64x4};
+
 fn main() {
-    let g = graphs::g_f32x4::graph();
-    println!("{} edges\n{}", g.edge_count(), g.adjacency_text());
-    let g = graphs::g_f32x8::graph();
-    println!("{} edges", g.edge_count());
-    let g = graphs::g_f64x2::graph();
-    println!("{} edges", g.edge_count());
-    let g = graphs::g_f64x4::graph();
-    println!("{} edges", g.edge_count());
-    let s = pga::d65_f32();
-    println!("scalar {} edges\n{}", s.edge_count(), s.adjacency_text());
+    pv::main_guard(real_main)
+}
+
+fn assert_same_nodes<A, B>(x: &Graph<A>, y: &Graph<B>) {
+    let nx: Vec<&str> = x.nodes.iter().map(|n| n.name).collect();
+    let ny: Vec<&str> = y.nodes.iter().map(|n| n.name).collect();
+    if nx != ny {
+        eprintln!("MACHINERY-FAILURE: node lists of the SIMD and scalar graphs differ: {nx:?} vs {ny:?}");
+        std::process::exit(3);
+    }
+}
+
+fn record_adjacency<V: Vect>(g: &Graph<V>, gs: &Graph<V::S>, c: &mut Collector) {
+    let n = g.n();
+    let missing: Vec<String> = (0..n).flat_map(|a| (0..n).map(move |b| (a, b))).filter(|&(a, b)| g.unc[a][b].is_some() && gs.unc[a][b].is_none()).map(|(a, b)| format!("{}->{}", g.nodes[a].name, g.nodes[b].name)).collect();
+    if !missing.is_empty() {
+        eprintln!("MACHINERY-FAILURE: SIMD edges without a scalar edge: {missing:?}");
+        std::process::exit(3);
+    }
+    let live = (0..n).filter(|&a| g.unc[a].iter().any(|e| e.is_some())).count();
+    c.note(
+        &format!("adjacency/{}", V::NAME),
+        json!({"nodes": n, "nodes_with_edges": live, "edges_incl_identity": g.edge_count(), "scalar_edges_incl_identity": gs.edge_count(),
+               "columns": g.nodes.iter().map(|n| n.name).collect::<Vec<_>>(),
+               "rows": g.adjacency_text().lines().map(|l| l.to_string()).collect::<Vec<_>>()}),
+    );
+}
+
+struct Graphs {
+    s32: Graph<f32>,
+    s64: Graph<f64>,
+    v32x4: Graph<f32x4>,
+    v32x8: Graph<f32x8>,
+    v64x2: Graph<f64x2>,
+    v64x4: Graph<f64x4>,
+}
+fn graphs() -> Graphs {
+    let g = Graphs { s32: pga::d65_f32(), s64: pgb::d65_f64(), v32x4: graphs::g_f32x4::graph(), v32x8: graphs::g_f32x8::graph(), v64x2: graphs::g_f64x2::graph(), v64x4: graphs::g_f64x4::graph() };
+    assert_same_nodes(&g.s32, &g.s64);
+    assert_same_nodes(&g.s32, &g.v32x4);
+    assert_same_nodes(&g.s32, &g.v32x8);
+    assert_same_nodes(&g.s32, &g.v64x2);
+    assert_same_nodes(&g.s32, &g.v64x4);
+    g
+}
+
+fn replay(c: &mut Collector, rep: &Value) {
+    let case = &rep["case"];
+    let g = graphs();
+    let sub = case["sub"].as_str().unwrap_or("");
+    let vec = case["vec"].as_str().unwrap_or("");
+    let path: Vec<String> = case["path"].as_array().map(|a| a.iter().map(|x| x.as_str().unwrap_or("").to_string()).collect()).unwrap_or_default();
+    fn mix<V: Vect>(gv: &Graph<V>, path: &[String], case: &Value, c: &mut Collector) {
+        let (a, b) = (gv.index(&path[0]).expect("node"), gv.index(&path[1]).expect("node"));
+        let x = conv::parse_hex3::<V::S>(&case["x"]);
+        let y = conv::parse_hex3::<V::S>(&case["y"]);
+        let lane = case["lane"].as_u64().unwrap_or(0) as usize;
+        let f = gv.unc[a][b].expect("edge");
+        let (rx, ry) = (conv::splat_ref::<V>(f, x).expect("splat x"), conv::splat_ref::<V>(f, y).expect("splat y"));
+        println!("{} -> {} ({}): x = {:?} in lane {}, y = {:?} elsewhere", path[0], path[1], V::NAME, lat::to64(x), lane, lat::to64(y));
+        println!("  f(splat(x)) lane {} = {:?}; f(splat(y)) lane 0 = {:?}", lane, lat::to64(rx[lane]), lat::to64(ry[0]));
+        for j in 1..V::N {
+            if !conv::same3(rx[j], rx[0]) {
+                c.violation(&format!("C17/lane-independence/{}/{}->{}/splat-not-uniform/replay", V::NAME, path[0], path[1]), 1.0, || json!({"lane": j, "observed": conv::hex3(rx[j]), "expected": conv::hex3(rx[0])}));
+            }
+        }
+        conv::check_mix_case(gv, a, b, x, y, lane, &rx, &ry, c);
+    }
+    fn vs<V: Vect>(gv: &Graph<V>, gs: &Graph<V::S>, path: &[String], case: &Value, c: &mut Collector) {
+        let (a, b) = (gv.index(&path[0]).expect("node"), gv.index(&path[1]).expect("node"));
+        let x = conv::parse_hex3::<V::S>(&case["x"]);
+        let mut cnt = [0u64; 3];
+        conv::check_vs_scalar_case(gv, gs, a, b, x, c, &mut cnt, true);
+    }
+    match sub {
+        "lane-mix" => match vec {
+            "f32x4" => mix(&g.v32x4, &path, case, c),
+            "f32x8" => mix(&g.v32x8, &path, case, c),
+            "f64x2" => mix(&g.v64x2, &path, case, c),
+            "f64x4" => mix(&g.v64x4, &path, case, c),
+            o => panic!("unknown vector type {o}"),
+        },
+        "simd-vs-scalar" => match vec {
+            "f32x4" => vs(&g.v32x4, &g.s32, &path, case, c),
+            "f32x8" => vs(&g.v32x8, &g.s32, &path, case, c),
+            "f64x2" => vs(&g.v64x2, &g.s64, &path, case, c),
+            "f64x4" => vs(&g.v64x4, &g.s64, &path, case, c),
+            o => panic!("unknown vector type {o}"),
+        },
+        "f32-vs-f64" => {
+            let (a, b) = (g.s32.index(&path[0]).expect("node"), g.s32.index(&path[1]).expect("node"));
+            let x = conv::parse_hex3::<f32>(&case["x"]);
+            let mut cnt = [0u64; 3];
+            conv::check_f32_f64_case(&g.s32, &g.s64, a, b, x, c, &mut cnt, true);
+        }
+        o => panic!("unknown sub-check {o} in replay file"),
+    }
+}
+
+fn real_main() -> i32 {
+    let (ctx, mode) = Ctx::from_args("C17");
+    if let Mode::Replay(rep) = mode {
+        let mut c = Collector::new();
+        replay(&mut c, &rep);
+        return ctx.finish_replay(c);
+    }
+    let g = graphs();
+    if ctx.only.as_deref() == Some("calib") {
+        conv::calib(&g.v32x4, &g.s32);
+        conv::calib(&g.v32x8, &g.s32);
+        conv::calib(&g.v64x2, &g.s64);
+        conv::calib(&g.v64x4, &g.s64);
+        return 0;
+    }
+    let mut total = Collector::new();
+    record_adjacency(&g.v32x4, &g.s32, &mut total);
+    record_adjacency(&g.v32x8, &g.s32, &mut total);
+    record_adjacency(&g.v64x2, &g.s64, &mut total);
+    record_adjacency(&g.v64x4, &g.s64, &mut total);
+    conv::run_lanemix(&ctx, &g.v32x4, &mut total);
+    conv::run_lanemix(&ctx, &g.v32x8, &mut total);
+    conv::run_lanemix(&ctx, &g.v64x2, &mut total);
+    conv::run_lanemix(&ctx, &g.v64x4, &mut total);
+    conv::run_vs_scalar(&ctx, &g.v32x4, &g.s32, &mut total);
+    conv::run_vs_scalar(&ctx, &g.v32x8, &g.s32, &mut total);
+    conv::run_vs_scalar(&ctx, &g.v64x2, &g.s64, &mut total);
+    conv::run_vs_scalar(&ctx, &g.v64x4, &g.s64, &mut total);
+    conv::run_f32_f64(&ctx, &g.s32, &g.s64, &mut total);
+    ctx.finish(total, "model_checking", "TODO", &[])
 }
